@@ -36,7 +36,7 @@ def run(ctx):
     def lap(what):
         ctx.note("%s: %.1fs" % (what, time.time() - t0))
     maxlen, postlen, deep = (5, 3, False) if ctx.quick else (6, 4, True)
-    res, scns = sc.run_mc(ctx, "C20", maxlen, postlen, deep, workers=8 if ctx.quick else 14, timeout=3000)
+    res, scns = sc.run_mc(ctx, "C20", maxlen, postlen, deep, prune=True, workers=8 if ctx.quick else 14, timeout=3000)
     lap("model checking done")
     for i, s in enumerate(scns, 1):
         s["sid"] = i
@@ -45,46 +45,42 @@ def run(ctx):
     for s in scns:
         classes[s["class"]] = classes.get(s["class"], 0) + 1
     mviol = [s for s in scns if s["mviol"]]
-    # ---- replay on the real library, validate with TLC
-    evs = sc.replay(ctx, scns, "replay_c20")
-    lap("replay done")
-    rows = []
-    for s in scns:
-        rows.extend(sc.rows_of(s, evs[s["sid"]]))
-    rej, drift, n = sc.validate(ctx, rows, "c20", nshards=14)
-    lap("validation done")
-    ctx.traces += n
-    # ---- vacuity: the branches the property needs must have been exercised and accepted
-    rejected = {(r["sid"], r["k"]) for r, _ in rej}
+    # ---- replay on the real library, validate with TLC (batch by batch)
     acc = {"init": 0, "real": 0, "fake": 0, "init*": 0, "real*": 0, "forbidden": 0, "unspec": 0, "legal": 0}
-    for s in scns:
-        t = s["conns"][-1]
-        ev = evs[s["sid"]][-1]
-        if (s["sid"], len(s["conns"])) in rejected:
-            continue
+    seen = {"resumed": 0}
+    keep = {}        # canary material: first accepted legal injected-and-resumed scenarios (ticket / psk), with their events
+    samples = []
+    def visit(s, es, rejected_ks):
+        t, ev = s["conns"][-1], es[-1]
+        seen["resumed"] += sum(1 for e in es if e["c_resumed"] and e["s_resumed"])
+        if len(samples) < 3 and s["sid"] % max(1, len(scns) // 3) == 1:
+            samples.append({"spec": sc.spec_label(t["spec"]), "server": sc.srv_label(t["srv"]), "class": s["class"],
+                            "calls": sc.ops_str(t), "results": [o["res"] for o in ev["ops"]], "resumed": [ev["c_resumed"], ev["s_resumed"]]})
+        if len(s["conns"]) in rejected_ks:
+            return
         acc[s["class"]] += 1
         if s["class"] == "legal" and ev["hs_ok"] and given_of(ev)["set"]:
             o = next(o for o in t["ops"] if o["op"] in ("SetTicket", "SetPsk") and o["arg"] in ("init", "real", "fake"))
             acc[o["arg"] + ("*" if o["forge"] else "")] += 1
+            if ev["c_resumed"]:
+                kind = "ticket" if given_of(ev)["ticket"] else "psk"
+                keep.setdefault(kind, (s, es))
+    rej, drift, n = sc.process(ctx, scns, "c20", visit)
+    lap("replay + validation done")
+    ctx.traces += n
+    # ---- vacuity: the branches the property needs must have been exercised and accepted
     missing = [k for k, v in acc.items() if v == 0]
     if missing:
         raise vlib.Machinery("C20 vacuous: no accepted scenario of kind %s (accepted: %r)" % (missing, acc))
-    if not any(ev["c_resumed"] and ev["s_resumed"] for es in evs.values() for ev in es):
+    if not seen["resumed"]:
         raise vlib.Machinery("C20 vacuous: no connection resumed at all")
     # ---- binding canaries: a corrupted observation of an accepted scenario must be rejected
     canaries = []
-    def accepted_with(pred):
-        for s in scns:
-            ev = evs[s["sid"]][-1]
-            if (s["sid"], len(s["conns"])) not in rejected and s["class"] == "legal" and pred(s, ev):
-                return s
-        return None
-    good = accepted_with(lambda s, ev: len(given_of(ev)["ticket"]) > 0 and ev["c_resumed"])
-    goodp = accepted_with(lambda s, ev: len(given_of(ev)["pskid"]) > 0 and ev["c_resumed"])
-    if not good or not goodp:
+    if "ticket" not in keep or "psk" not in keep:
         raise vlib.Machinery("C20: no accepted injected-and-resumed scenario to build the canaries from")
-    def mutate(s, f, what):
-        rs = copy.deepcopy(sc.rows_of(s, evs[s["sid"]]))
+    good, goodp = keep["ticket"], keep["psk"]
+    def mutate(pair, f, what):
+        rs = copy.deepcopy(sc.rows_of(pair[0], pair[1]))
         for r in rs:
             r["sid"] = 900000 + len(canaries)
         f(rs[-1]["ev"])
@@ -122,11 +118,6 @@ def run(ctx):
         ex = drift[0]
         ctx.note("mechanism model drift (diagnostic, not a verdict): %d of %d target connections match neither the as-coded nor the repaired controller model, e.g. [%s] on %s observed %s predicted %s / %s" % (
             nd, len(scns), sc.ops_str(ex["cd"]), sc.spec_label(ex["cd"]["spec"]), [o["res"] for o in ex["ev"]["ops"]], ex["pred0"], ex["pred1"]))
-    samples = []
-    for s in scns[:: max(1, len(scns) // 3)][:3]:
-        ev = evs[s["sid"]][-1]
-        samples.append({"spec": sc.spec_label(s["conns"][-1]["spec"]), "server": sc.srv_label(s["conns"][-1]["srv"]), "class": s["class"],
-                        "calls": sc.ops_str(s["conns"][-1]), "results": [o["res"] for o in ev["ops"]], "resumed": [ev["c_resumed"], ev["s_resumed"]]})
     cov = {"evaluations": len(scns), "distinct_nontrivial": len({(json.dumps(s["cfg"]["sd"]), s["cfg"]["srvmax"], sc.ops_str(s["conns"][-1])) for s in scns}),
            "rule": "every call sequence TLC enumerates over {SetSessionCache, BuildHandshakeStateWithoutSession, SetSessionTicketExtension(init|uninit|nil), SetPskExtension(real|fake|uninit|nil), BuildHandshakeState, Handshake, ApplyPreset for custom specs} up to length %d (calls after Handshake up to %d) x spec kinds x TLS 1.2/1.3 server x cache in config x session origin (previous connection / MakeClientSessionState); distinct = (spec, server, call sequence)" % (maxlen, postlen),
            "classes": classes, "accepted": acc, "model_level_counterexamples_as_coded": len(mviol), "mechanism_drift": nd,
